@@ -25,7 +25,7 @@ func init() {
 				"for both signs; (C04.ops) inside the arm for operator X every Go operation on the operands is X's Go operator, in all int/uint/float sub-branches; (C04.kinds) under isInt/isUint/" +
 				"isFloat the left operand is read with Int/Uint/Float and the right with toInt/toUint/toFloat (or Float under float promotion, which is !isFloat(left) && isFloat(right)), and " +
 				"comparison/logical evaluators return reflect.ValueOf(<bool>); (C04.lazy) the right operand of &&/|| is evaluated only as the right operand of Go's &&/|| after the left one's " +
-				"truthiness, and ?: evaluates exactly one arm; (C04.lit) number nodes prefer float over int over uint and every literal that is an int/uint is also a float; isTrue is IsValid && !IsZero.",
+				"truthiness, and ?: evaluates exactly one arm; (C04.lit) number nodes prefer float over int over uint and every literal that is an int/uint is also a float; isTrue is IsValid && !IsZero. (C04.kinds, continued) checkEquality compares two integers as integers and goes to floating point only where an operand is known to be a float. (C04.ladder, continued) every node constructor of the ladder returns the node it allocates, never one of its operands (no folding at parse time).",
 			NotDecided:  "numeric values, overflow, float formatting, checkEquality's cross-type results, string→number coercions in toInt/toUint/toFloat.",
 			Assumptions: []string{"Go's own operator semantics"},
 			Trusted:     commonTrusted,
